@@ -224,9 +224,10 @@ def _expf(text, what):
     return s * Fraction(int(text[1:6]), 10**5) * Fraction(10) ** x, Fraction(1, 10**5) * Fraction(10) ** x
 
 
-def parse_lines(l1, l2):
+def parse_lines(l1, l2, same_catalogue=True):
     """Strict column parser: returns a dict of exact values, raises FormatError if the lines do
-    not follow the table above (length, blanks, decimal points, checksums)."""
+    not follow the table above (length, blanks, decimal points, checksums).  `same_catalogue`:
+    also require the catalogue numbers of the two lines to agree."""
     for k, (ln, blanks) in enumerate(((l1, BLANK_1), (l2, BLANK_2)), 1):
         if len(ln) != 69:
             raise FormatError(f"line {k} has {len(ln)} columns")
@@ -239,7 +240,7 @@ def parse_lines(l1, l2):
             raise FormatError(f"line {k} checksum is {ln[68]}, columns 1-68 give {checksum(ln)}")
     out = {}
     out["cat"] = _int(l1[2:7], "catalogue number")
-    if _int(l2[2:7], "catalogue number (line 2)") != out["cat"]:
+    if _int(l2[2:7], "catalogue number (line 2)") != out["cat"] and same_catalogue:
         raise FormatError("catalogue numbers of the two lines differ")
     out["cls"] = l1[7]
     des = l1[9:17]
